@@ -530,27 +530,41 @@ def monitor_r(table, line, cats, conf_ok):
     if s["C"] == "noconf":
         return ("aisle configuration rejected" if conf_ok else None), None
     look = aisle_lookup(cats)
-    want_cat = {}
+    want_cat, senders = {}, {}
     for n, qs in want_list.items():
         name = unhx(n)
         dest = look.get(name)
         key = (hx(dest[0]), hx(dest[1])) if dest else (hx("other"), n)
         want_cat.setdefault(key, []).extend(qs)
-    dests = [look[unhx(n)] for n in want_list if unhx(n) in look]
-    collision = len(dests) != len(set(dests))
+        if dest:
+            senders.setdefault(key, []).append(n)
     got_cat = {}
     for ct in plist(s["C"], "!", str):
         cname, il = ct.split(">")
         for n, g in pilist(il):
             got_cat.setdefault((cname, n), []).extend(gq_iter(g))
-    cls = CLASS_COLLISION if collision else None
     if set(got_cat) != set(want_cat):
         return "categorized entries %s, expected %s" % (
-            sorted((unhx(a), unhx(b)) for a, b in got_cat), sorted((unhx(a), unhx(b)) for a, b in want_cat)), cls
-    for key in want_cat:
+            sorted((unhx(a), unhx(b)) for a, b in got_cat), sorted((unhx(a), unhx(b)) for a, b in want_cat)), None
+    # Conservation under every (category, name).  The open finding's class is narrow: the key is the
+    # destination of >= 2 listed names (a synonym collision) AND what is shown is exactly the group of the
+    # last of them in list (byte) order - the overwrite.  Any other loss, also under a colliding key, and
+    # any loss under a key without collision is a violation of its own.
+    known = None
+    for key in sorted(want_cat):
         r = close(total(table, got_cat[key]), total(table, want_cat[key]))
-        if r:
-            return "category %r entry %r: %s" % (unhx(key[0]), unhx(key[1]), r), cls
+        if not r:
+            continue
+        msg = "category %r entry %r: %s" % (unhx(key[0]), unhx(key[1]), r)
+        names = senders.get(key, [])
+        if len(names) >= 2:
+            last = max(names, key=lambda h: bytes.fromhex(h[1:]))
+            if close(total(table, got_cat[key]), total(table, want_list[last])) is None:
+                known = known or msg
+                continue
+        return msg, None
+    if known:
+        return known, CLASS_COLLISION
     return None, None
 
 
@@ -796,6 +810,25 @@ def _run(rep, tier, rng, audit, runner, exe, table, env, open_classes):
     ok_i = next(j for j, l in enumerate(ri) if l.startswith("R ok") and j > 0)
     samples.append({"case": r_lines[ok_i], "recipes": [unhx(x) for x in r_lines[ok_i].split(" ")[3:]],
                     "aisle": unhx(r_lines[ok_i].split(" ")[2]), "impl": ri[ok_i][:1500]})
+
+    # sensitivity of the monitor around the known class: mutants of the witness output that lose an amount
+    # in a way that is NOT the recorded overwrite must come back as violations of their own (class None)
+    w_li = ri[0]
+    if w_li.startswith("R ok"):
+        head, ctext = w_li.rsplit(" ; C ", 1)
+        mutants = [ctext.replace("n:" + f64tok(100.0) + "@", "n:" + f64tok(150.0) + "@"),
+                   ctext.replace("n:" + f64tok(100.0) + "@", "n:" + f64tok(200.0) + "@"),
+                   "-"]
+        for mt in mutants:
+            if mt == ctext:
+                continue
+            mm, mc = monitor_r(table, head + " ; C " + mt, WITNESS_CATS, True)
+            stats["monitor_selftest_mutants"] += 1
+            if mm is not None and mc is None:
+                stats["monitor_selftest_mutants_flagged"] += 1
+            else:
+                disagreements.append(("selftest", {"what": "the monitor did not flag a mutant of the witness output "
+                                                   "(a loss other than the recorded overwrite)", "mutant": mt}))
 
     if CLASS_COLLISION in open_classes:
         f = open_classes[CLASS_COLLISION]
